@@ -63,7 +63,7 @@ deriving Repr
 
 def mkEv (name : String) (x : Item) : Option Ev :=
   match name with
-  | "sub" => some (.sub x) | "dt" => some (.dt x) | "dp" => some (.dp x) | "dd" => some (.dd x)
+  | "acq" => some (.acq x) | "sub" => some (.sub x) | "dt" => some (.dt x) | "dp" => some (.dp x) | "dd" => some (.dd x)
   | "vt" => some (.vt x) | "vp" => some (.vp x) | "vd" => some (.vd x)
   | "at" => some (.at_ x) | "ax" => some (.ax x) | "ab" => some (.ab x) | "aq" => some (.aq x)
   | "ap" => some (.ap x) | "ad" => some (.ad x) | "rs" => some (.rs x) | "rd" => some (.rd x)
@@ -78,6 +78,8 @@ def parseTok (sc : Scenario) (t : String) : Option Tok :=
     if m ∈ ["gate", "open", "rel", "drain_begin", "drain_ok", "drain_err", "drain_nopoll", "settled",
             "unsettled", "stop_noop", "stop_hung", "start_err"] then
       some (.mark m) else none
+  | ["en", _] => some (.ev0 .enter)
+  | ["gu", _] => some (.ev0 .giveup)
   | ["pc", n] => do let n ← n.toNat?; pure (.ev0 (.pc n))
   | ["pcq", n] => do let n ← n.toNat?; pure (.ev0 (.pcq n))
   | ["pa", n] => do let n ← n.toNat?; pure (.ev0 (.pa n))
